@@ -426,6 +426,7 @@ func (s *storage) createArchetype(node *node) *archetype {
 	arch, data := newArchetype(archetypeID(index), node.id, &node.mask, comps, nil, &s.registry)
 	s.archetypesData.Add(data)
 	arch.archetypeData = s.archetypesData.Get(s.archetypesData.len - 1)
+	s.archetypes = verifMoveSlice(s.archetypes)
 	s.archetypes = append(s.archetypes, arch)
 
 	archetype := &s.archetypes[index]
@@ -474,6 +475,7 @@ func (s *storage) createTable(archetype *archetype, relations []relationID) *tab
 		if archetype.HasRelations() {
 			cap = s.config.initialCapacityRelations
 		}
+		s.tables = verifMoveSlice(s.tables)
 		s.tables = append(s.tables, newTable(
 			newTableID, archetype, uint32(cap), &s.registry,
 			targets, relations))
